@@ -2,6 +2,7 @@ package mon
 
 import (
 	"fmt"
+	"math"
 	"regexp"
 	"time"
 
@@ -31,7 +32,9 @@ var c16Dirs = []string{"absent", "NORTH", "EAST", "SOUTH", "WEST"}
 var c16Tracks = []string{"none", "scheduled", "actual", "both", "empty-extension"}
 var c16First = []string{"no-stops", "no-times", "dep<", "dep=", "dep>", "arr-only<", "arr-only=", "arr-only>", "dep>arr<", "dep<arr>",
 	// a departure EVENT without a time (delay only / empty): the departure time is missing, so the arrival time decides
-	"dep-delay-only+arr<", "dep-delay-only+arr=", "dep-delay-only+arr>", "dep-empty+arr>", "dep-empty+arr<", "dep-delay-only+no-arr", "arr-delay-only+dep>", "arr-empty+dep<"}
+	"dep-delay-only+arr<", "dep-delay-only+arr=", "dep-delay-only+arr>", "dep-empty+arr>", "dep-empty+arr<", "dep-delay-only+no-arr", "arr-delay-only+dep>", "arr-empty+dep<",
+	// rare values: instants before 1970 are earlier than any feed timestamp; one second is the smallest positive instant
+	"dep-negative", "arr-only-negative", "dep-min-int64", "dep=1", "dep-max-int64"}
 var c16IDs = []string{"nyct-format", "other-format"}
 
 func c16TableSize() int {
@@ -159,6 +162,16 @@ func c16Stops(first, tracks string, r *core.Rand) []*gtfsrt.TripUpdate_StopTimeU
 	case "arr-empty+dep<":
 		u0.Arrival = &gtfsrt.TripUpdate_StopTimeEvent{}
 		u0.Departure = ev(ts - 1)
+	case "dep-negative":
+		u0.Departure = ev(-1 - int64(r.Intn(100000)))
+	case "arr-only-negative":
+		u0.Arrival = ev(-5)
+	case "dep-min-int64":
+		u0.Departure = ev(math.MinInt64)
+	case "dep=1":
+		u0.Departure = ev(1)
+	case "dep-max-int64":
+		u0.Departure = ev(math.MaxInt64)
 	}
 	out := []*gtfsrt.TripUpdate_StopTimeUpdate{u0}
 	// later stops never matter for staleness: give them times on the other side
@@ -174,7 +187,7 @@ func c16Stops(first, tracks string, r *core.Rand) []*gtfsrt.TripUpdate_StopTimeU
 
 func c16Stale(first string) bool {
 	switch first {
-	case "no-stops", "no-times", "dep<", "arr-only<", "dep<arr>", "dep-delay-only+arr<", "dep-empty+arr<", "dep-delay-only+no-arr", "arr-empty+dep<":
+	case "no-stops", "no-times", "dep<", "arr-only<", "dep<arr>", "dep-delay-only+arr<", "dep-empty+arr<", "dep-delay-only+no-arr", "arr-empty+dep<", "dep-negative", "arr-only-negative", "dep-min-int64", "dep=1":
 		return true
 	}
 	return false
